@@ -588,6 +588,16 @@ Dev_F27V ==
 (* ConvAny (closed form +/- 30 ns).  Round trip: uniform -> ET|TDB -> back within 20 ns.           *)
 TrRoundTrip == IsOp("round_trip") /\ KeepAll /\ UNCHANGED sw /\ IsEp(E.res) /\ E.res.ts = e.ts
                /\ B!Le(B!Abs(B!Sub(DV(E.res), e.v)), B!FromInt(20))
+(* the ET / TDB accessors: the count since J2000 is an admissible conversion; the JDE duration is that   *)
+(* count + J2000 + 2 415 020.5 days exactly; every float view is that duration within a few ulp          *)
+TrDynView == IsOp("dyn_view") /\ KeepAll /\ UNCHANGED sw /\ IsDur(E.dur) /\ IsDur(E.jde)
+               /\ X!ConvAny(e, E.to, X!Ep(E.to, DV(E.dur))) /\ M!Canonical(<<E.dur.c, Mg(E.dur.n)>>)
+               /\ LET base == DV(E.dur)
+                       jde  == B!Add(B!Add(base, J2000Ns), ViewOffset("jde")) IN
+                    /\ (M!InRange(jde) => DurIs(E.jde, jde))
+                    /\ \A i \in 1..Len(E.views) :
+                         LET vw == E.views[i] IN
+                           IsFin(vw.v) /\ Dy!WithinUlps(vw.v, IF vw.b = 0 THEN base ELSE DV(E.jde), Ur[vw.u].m, Ur[4].m, 4)
 (* sorted sweep: instants more than 100 ns apart keep their order through the conversion *)
 TrSweepDyn == IsOp("sweep_dyn") /\ KeepAll /\ IsEp(E.res) /\ E.res.ts = E.to
                /\ X!ConvAny(EV(E.src), E.to, EV(E.res))
@@ -596,7 +606,7 @@ TrSweepDyn == IsOp("sweep_dyn") /\ KeepAll /\ IsEp(E.res) /\ E.res.ts = E.to
                /\ sw' = <<DV(E.src), DV(E.res)>>
 
 FloatNext ==
-  \/ TrRoundTrip \/ TrSweepDyn
+  \/ TrRoundTrip \/ TrSweepDyn \/ TrDynView
   \/ Dev_F27V
   \/ Dev_F1F
   \/ TrF64Unit \/ TrMulF64 \/ (TrToUnit /\ UNCHANGED sw) \/ TrSweepUnit
